@@ -43,6 +43,7 @@ func runC17(r *Run, p *Prog) {
 				if c, ok := st.Val.(*ssa.Call); ok && calleeName(&c.Call) == "time.Unix" {
 					if k, ok := c.Call.Args[0].(*ssa.Const); ok && k.Int64() >= 0 && k.Int64() < 1000000000 {
 						past["*(global:"+g.Pkg.Pkg.Name()+"."+g.Name()+")"] = true
+						past[strip(T.T(c))] = true
 					}
 				}
 			}
